@@ -12,7 +12,7 @@
      out    : OUnit | OVal v | OBool b | ORaise e | OCrash | OFuel; the map never returns the last two,
               so equal outcomes mean: no crash, no fuel exhaustion (all loops terminate).        *)
 From Coq Require Import List Arith NArith ZArith Permutation.
-From CelloV Require Import Generated RobinHood RobinHoodProofs TableModel TableProofs.
+From CelloV Require Import Generated RobinHood RobinHoodProofs TableModel TableLayout TableProofs.
 Import ListNotations.
 
 Theorem table_ideal_size_gt : forall n : nat,
@@ -159,6 +159,28 @@ Theorem table_assign_refines : forall (K V : Type) (keq : K -> K -> bool) (hash 
     t_inv K V hash t' /\ R K V t' m.
 Proof. exact TableProofs.T_assign_refines. Qed.
 Print Assumptions table_assign_refines.
+
+(* slot layout: Table_Size_Round (re-extracted from the source) rounds UP to a multiple of 8, so for
+   every element size the key and the value fit into the bytes the slot reserves for them *)
+Theorem size_round_ge : forall s : nat,
+  s <= size_round s /\ size_round s mod 8 = 0 /\ size_round s < s + 8.
+Proof. exact TableProofs.size_round_ge_proof. Qed.
+Print Assumptions size_round_ge.
+
+Theorem table_slot_layout : forall hdr ks vs i : nat,
+  let step := slot_step hdr ks vs in
+  8 <= key_off hdr - hdr /\
+  key_off hdr + ks <= val_hdr_off hdr ks /\
+  val_hdr_off hdr ks + hdr = val_off hdr ks /\
+  val_off hdr ks + vs <= step /\
+  i * step + step = S i * step /\
+  step mod 8 = (2 * hdr) mod 8.
+Proof. exact TableProofs.slot_layout_proof. Qed.
+Print Assumptions table_slot_layout.
+
+Theorem table_layout_shape : table_layout_shape_ok = true.
+Proof. exact TableProofs.layout_shape_proof. Qed.
+Print Assumptions table_layout_shape.
 
 (* 4. the rule of the pinned source, `if (j >= p)`, does NOT refine the map (defect D1, repaired) *)
 Theorem table_nonstrict_refuted :
